@@ -350,7 +350,7 @@ func (m *Mux) encError(w http.ResponseWriter, r *http.Request, err error) {
 	w.Write(b) //nolint
 }
 
-func (m *Mux) serveHTTP(w http.ResponseWriter, r *http.Request) error {
+func (m *Mux) serveHTTP(w http.ResponseWriter, r *http.Request) (rerr error) {
 	ctx, mdata := newIncomingContext(r.Context(), r.Header)
 
 	s := m.loadState()
@@ -381,6 +381,7 @@ func (m *Mux) serveHTTP(w http.ResponseWriter, r *http.Request) error {
 
 	// Handle stats.
 	beginTime := time.Now()
+	ended := false
 	if sh := m.opts.statsHandler; sh != nil {
 		ctx = sh.TagRPC(ctx, &stats.RPCTagInfo{
 			FullMethodName: hd.method,
@@ -402,6 +403,17 @@ func (m *Mux) serveHTTP(w http.ResponseWriter, r *http.Request) error {
 			IsServerStream:            hd.desc.IsStreamingServer(),
 			IsTransparentRetryAttempt: false, // TODO
 		})
+		// An RPC that has begun ends exactly once, on every return path.
+		defer func() {
+			if !ended {
+				sh.HandleRPC(ctx, &stats.End{
+					Client:    false,
+					BeginTime: beginTime,
+					EndTime:   time.Now(),
+					Error:     rerr,
+				})
+			}
+		}()
 	}
 
 	if isWebsocket {
@@ -443,6 +455,7 @@ func (m *Mux) serveHTTP(w http.ResponseWriter, r *http.Request) error {
 		// Handle stats.
 		if sh := m.opts.statsHandler; sh != nil {
 			endTime := time.Now()
+			ended = true
 			sh.HandleRPC(ctx, &stats.End{
 				Client:    false,
 				BeginTime: beginTime,
@@ -512,6 +525,7 @@ func (m *Mux) serveHTTP(w http.ResponseWriter, r *http.Request) error {
 			Trailer: stream.trailer.Copy(),
 		})
 
+		ended = true
 		sh.HandleRPC(ctx, &stats.End{
 			Client:    false,
 			BeginTime: beginTime,
